@@ -17,7 +17,7 @@
 (* Byte sequences are 1-based TLA+ sequences; offsets `o` are 0-based file *)
 (* offsets as in the format documents.                                     *)
 (***************************************************************************)
-EXTENDS Integers, Sequences
+EXTENDS Integers, Sequences, SequencesExt
 
 \* ---------------------------------------------------------------- bytes
 LE16(b, o) == b[o + 1] + 256 * b[o + 2]
@@ -57,24 +57,67 @@ Psf2Encode(f) ==
 \* header (4 bytes): magic 36 04, mode (bit 0: 512 glyphs, bit 1: has unicode table, bit 2: has sequences), charsize;
 \* glyphs are 8 pixels wide, charsize bytes each; a unicode table may follow the glyph data
 HasPsf1Magic(b) == Len(b) >= 2 /\ b[1] = 54 /\ b[2] = 4
-Psf1Decode(b) ==
+Psf1DecodeN(b, base) ==        \* base = 256 in real files (scaled down by MC_Fonts)
   IF Len(b) < 4 \/ ~HasPsf1Magic(b) THEN BadFont("psf1-header")
-  ELSE LET mode == b[3]   cs == b[4]   n == IF mode % 2 = 1 THEN 512 ELSE 256   tab == (mode \div 2) % 4 # 0 IN
+  ELSE LET mode == b[3]   cs == b[4]   n == IF mode % 2 = 1 THEN 2 * base ELSE base   tab == (mode \div 2) % 4 # 0 IN
        IF cs = 0 THEN BadFont("psf1-charsize")
        ELSE IF 4 + n * cs > Len(b) THEN BadFont("psf1-truncated")
        ELSE IF ~tab /\ 4 + n * cs # Len(b) THEN BadFont("psf1-trailing-bytes")
        ELSE GoodFont(8, cs, n, Slice(b, 4, n * cs))
-Psf1Encode(f) == <<54, 4, IF f.n = 512 THEN 1 ELSE 0, f.h>> \o f.g
+Psf1Decode(b) == Psf1DecodeN(b, 256)
+Psf1EncodeN(f, base) == <<54, 4, IF f.n = 2 * base THEN 1 ELSE 0, f.h>> \o f.g
 
 \* ---------------------------------------------------------------- raw (.F08 / .F14 / .F16 / .Fnn, CTerm font DCS payload)
 \* 256 glyphs of 8 x h pixels, h = size / 256
-RawDecode(b) ==
-  IF Len(b) = 0 \/ Len(b) % 256 # 0 THEN BadFont("raw-size")
-  ELSE GoodFont(8, Len(b) \div 256, 256, b)
+RawDecodeN(b, n) ==
+  IF Len(b) = 0 \/ Len(b) % n # 0 THEN BadFont("raw-size")
+  ELSE GoodFont(8, Len(b) \div n, n, b)
+RawDecode(b) == RawDecodeN(b, 256)
 RawEncode(f) == f.g
 
 \* a font file as the engine's sniffing loader sees it: PSF1 magic, else PSF2 magic, else raw
-FileDecode(b) == IF HasPsf1Magic(b) THEN Psf1Decode(b) ELSE IF HasPsf2Magic(b) THEN Psf2Decode(b) ELSE RawDecode(b)
+FileDecodeN(b, n) == IF HasPsf1Magic(b) THEN Psf1DecodeN(b, n) ELSE IF HasPsf2Magic(b) THEN Psf2Decode(b) ELSE RawDecodeN(b, n)
+FileDecode(b) == FileDecodeN(b, 256)
+\* the sniffing is ambiguous: raw glyph data may begin with a PSF magic (glyph 0 = 36 04 .. or 72 b5 4a 86 ..)
+LooksLikePsf(b) == HasPsf1Magic(b) \/ HasPsf2Magic(b)
+
+\* ---------------------------------------------------------------- base64 (RFC 4648, standard alphabet, '=' padding) and the CTerm font DCS
+B64Val(c) == IF c \in 65..90 THEN c - 65 ELSE IF c \in 97..122 THEN c - 71 ELSE IF c \in 48..57 THEN c + 4 ELSE IF c = 43 THEN 62 ELSE IF c = 47 THEN 63 ELSE -1
+B64Char(v) == IF v < 26 THEN v + 65 ELSE IF v < 52 THEN v + 71 ELSE IF v < 62 THEN v - 4 ELSE IF v = 62 THEN 43 ELSE 47
+Base64Decode(s) ==
+  LET n == Len(s)
+      pad == IF n >= 1 /\ s[n] = 61 THEN (IF n >= 2 /\ s[n - 1] = 61 THEN 2 ELSE 1) ELSE 0
+      v(i) == IF i > n - pad THEN 0 ELSE B64Val(s[i]) IN
+  IF n % 4 # 0 \/ \E i \in 1..(n - pad) : B64Val(s[i]) < 0 THEN [ok |-> FALSE, bytes |-> <<>>]
+  ELSE [ok |-> TRUE, bytes |-> [k \in 1..(3 * (n \div 4) - pad) |->
+          LET q == 4 * ((k - 1) \div 3)   r == (k - 1) % 3 IN
+          IF r = 0 THEN v(q + 1) * 4 + v(q + 2) \div 16 ELSE IF r = 1 THEN (v(q + 2) % 16) * 16 + v(q + 3) \div 4 ELSE (v(q + 3) % 4) * 64 + v(q + 4)]]
+Base64Encode(b) ==
+  LET n == Len(b)   byte(i) == IF i > n THEN 0 ELSE b[i]   groups == (n + 2) \div 3 IN
+  [k \in 1..(4 * groups) |->
+     LET g == 3 * ((k - 1) \div 4)   r == (k - 1) % 4 IN
+     IF r = 0 THEN B64Char(byte(g + 1) \div 4)
+     ELSE IF r = 1 THEN B64Char((byte(g + 1) % 4) * 16 + byte(g + 2) \div 16)
+     ELSE IF r = 2 THEN (IF g + 2 > n THEN 61 ELSE B64Char((byte(g + 2) % 16) * 4 + byte(g + 3) \div 64))
+     ELSE (IF g + 3 > n THEN 61 ELSE B64Char(byte(g + 3) % 64))]
+
+\* ESC P "CTerm:Font:" <slot decimal> ":" <base64 of the raw glyph data> ESC \   (CTerm: the payload is RAW font data, its
+\* size determines the height: 4096 = 8x16, 3584 = 8x14, 2048 = 8x8, in general 256 * h)
+DcsPrefix == <<27, 80, 67, 84, 101, 114, 109, 58, 70, 111, 110, 116, 58>>
+DcsDecodeN(s, n) ==
+  LET pl == Len(DcsPrefix)
+      colon == FoldLeft(LAMBDA m, i : IF m = 0 /\ i > pl /\ s[i] = 58 THEN i ELSE m, 0, [i \in 1..Len(s) |-> i])     \* first ':' behind the prefix
+      slot == FoldLeft(LAMBDA acc, i : IF acc >= 0 /\ s[i] \in 48..57 /\ acc < 100000 THEN acc * 10 + s[i] - 48 ELSE -1, 0, [k \in 1..(colon - pl - 1) |-> pl + k]) IN
+  IF Len(s) < pl + 4 \/ SubSeq(s, 1, pl) # DcsPrefix \/ s[Len(s) - 1] # 27 \/ s[Len(s)] # 92 \/ colon = 0 \/ colon = pl + 1 \/ slot < 0
+    THEN [ok |-> FALSE, slot |-> 0, font |-> BadFont("dcs-frame")]
+  ELSE LET d == Base64Decode(SubSeq(s, colon + 1, Len(s) - 2)) IN
+       IF ~d.ok THEN [ok |-> FALSE, slot |-> slot, font |-> BadFont("dcs-base64")]
+       ELSE LET f == RawDecodeN(d.bytes, n) IN [ok |-> f.ok, slot |-> slot, font |-> f]
+DcsDecode(s) == DcsDecodeN(s, 256)
+DcsEncode(slot, f) == DcsPrefix \o slot \o <<58>> \o Base64Encode(f.g) \o <<27, 92>>          \* slot given as its decimal digits
+
+\* a block of n glyphs of height h stored raw at offset o of a picture file
+FontBlock(b, o, n, h) == IF o + n * h > Len(b) THEN BadFont("font-block-truncated") ELSE GoodFont(8, h, n, Slice(b, o, n * h))
 
 \* ---------------------------------------------------------------- font blocks inside picture files
 \* XBin: "XBIN" 1A, width u16, height u16, fontsize u8 (0 = 16), flags u8 (1 palette, 2 font, 4 compress, 8 non-blink,
